@@ -201,6 +201,48 @@ def run(ctx):
             if closed_at is None or nt > ntimeouts(ev):
                 ctx.violate("timeout-resumable", "timeouts-lost-or-duplicated", inp, f"{ntimeouts(ev)} TIMEOUTs", f"{nt} TIMEOUTs", size=len(ev))
     run_handshake_boundary(ctx)
+    run_select(ctx)
+
+
+def run_select(ctx):
+    """a select-driven caller (the call is made only when the TRANSPORT is readable — what WebSocketApp's dispatcher, or any
+    event loop, does): what it observes is still a function of the bytes. Holds because a call never takes a byte beyond the
+    frame it returns (`Lemmas/Exact`): nothing is ever parked in the library's buffer where select cannot see it."""
+    rnd = ctx.rng("select")
+    sessions, meta = [], []
+    for frames in streams(ctx):
+        stream = b"".join(f.enc() for f in frames)
+        n = len(stream)
+        if n > 2000 or any(f.op not in (0, 1, 2, 9, 10) or f.rsv for f in frames):
+            continue
+        api = rnd.choice(["sel:recvdata:1", "sel:recv", "sel:rdf:1", "sel:recvdata:0"])
+        parts = [[stream]]
+        if n <= 16:
+            parts += [[stream[:a], stream[a:b], stream[b:]] for a, b in itertools.combinations(range(1, n), 2)]
+            parts += [[stream[:a], stream[a:]] for a in range(1, n)]
+        else:
+            parts += rx.partitions(stream, rnd, 8 if not ctx.thorough() else 24)
+            parts += [[stream[:a], stream[a:]] for a in rnd.sample(range(1, n), min(n - 1, 6))]
+        gid = len(meta)
+        for chunks in parts:
+            for tail in ("timeout", "eof"):
+                cfg = {"keys": [b"\xa1\xb2\xc3\xd4"] * 8, "tail": tail, "to": 1000}
+                sessions.append((cfg, [("chunk", c) for c in chunks if c], [api] * (len(frames) + 3)))
+                meta.append(((gid, tail), frames, api, chunks))
+    res = rx.run_sessions(ctx, "session:select-driven", sessions)
+    base = {}
+    for (gid, frames, api, chunks), (impl, model, ws, sock, line) in zip(meta, res):
+        outs = rx.results(impl)
+        wire = bytes(sock.sent)
+        ctx.case(key=line, nontrivial=len(chunks) > 1, cls=f"select-driven:api={api}:chunks={min(len(chunks), 4)}:tail={gid[1]}")
+        if gid not in base:
+            base[gid] = (outs, wire)
+            continue
+        bouts, bwire = base[gid]
+        if outs != bouts or wire != bwire:
+            ctx.violate("segmentation-independent", "select-driven-caller-observations-differ" if outs != bouts else "written-bytes-differ",
+                        {"op": line if len(line) < 400 else line[:400] + "...", "frames": [f.desc() for f in frames], "api": api,
+                         "chunks": [len(c) for c in chunks][:40]}, bouts[:8], outs[:8], size=len(chunks) + len(frames))
 
 
 def search(ctx):
